@@ -439,7 +439,10 @@ def organize(
             pass
         pass
     log.debug('organize() - setting queue')
-    dawgie.pl.schedule.que = sorted(jobs.values(), key=lambda i: i.get('level'))
+    dawgie.pl.schedule.que = sorted(
+        filter(lambda j: j.get('todo') or j.get('doing'), jobs.values()),
+        key=lambda i: i.get('level'),
+    )
     return
 
 
@@ -474,12 +477,21 @@ def periodics(factories):
 
 
 def purge(node: dawgie.pl.dag.Node, target: str):
+    executing = target in node.get('doing', [])
     if target in node.get('do', []):
         node.get('do').remove(target)
     if target in node.get('doing', []):
         node.get('doing').remove(target)
     if target in node.get('todo', []):
         node.get('todo').remove(target)
+    # a dependant still executing the target stays queued for its reply
+    if (
+        not executing
+        and node in que
+        and not (node.get('todo') or node.get('doing'))
+    ):
+        que.remove(node)
+        node.set('status', State.waiting)
 
     for child in node:
         purge(child, target)
